@@ -308,5 +308,5 @@ def oracle(ctx, extra):
 def replay(ctx, case):
     c = case.get("case", case)
     fails = []
-    check_case(ctx.mistune, c["input"], fails)
+    check_case(ctx.mistune, c["input"], fails, cli=str(c.get("through", "")).startswith("python"))
     return fails[0] if fails else None
